@@ -411,6 +411,19 @@ fn lane_position_cases() -> Vec<(String, Vec<PacketT>, Mode)> {
             }
         }
     }
+    // wrap-arounds: 160 HBFs on one link = 320 packets (the 8-bit packet counter wraps), the orbit runs through
+    // 0xFFFF_FFFF -> 0, trigger BCs reach 3563
+    for (name, mut cfg) in [("IB", LinkCfg::ib(4, 3)), ("OL", LinkCfg::ol(5, 40, true))] {
+        cfg.first_orbit = 0xFFFF_FFFF - 100;
+        cfg.rdh_bcs = vec![0, 3563 - 3 * 0x40];
+        cfg.bc_step = 0x40;
+        let shapes = grammar::basic_hbf_shapes(&cfg);
+        let hbfs: Vec<fp_model::grammar::HbfShape> = (0..160).map(|i| shapes[[0usize, 1, 3][i % 3]].1.clone()).collect();
+        let pk = grammar::render_link(&cfg, &hbfs);
+        for mode in [Mode::All, Mode::AllIts] {
+            v.push((format!("{name} link, 160 HBFs: packet counter, orbit and BC wrap-arounds"), pk.clone(), mode));
+        }
+    }
     v
 }
 
